@@ -187,6 +187,8 @@ func main() {
 		modeReuse(*n)
 	case "fallback":
 		modeFallback(*n)
+	case "fault":
+		modeFault(*long)
 	default:
 		panic("unknown mode " + *mode)
 	}
